@@ -12,6 +12,7 @@ require (
 	github.com/quic-go/quic-go v0.59.0
 	github.com/stretchr/testify v1.11.1
 	github.com/twitchtv/twirp v8.1.3+incompatible
+	github.com/zhangyunhao116/skipmap v0.10.1
 	go.miragespace.co/specter v0.0.0
 	go.uber.org/zap v1.27.1
 	golang.org/x/net v0.51.0
@@ -58,7 +59,6 @@ require (
 	github.com/zeebo/blake3 v0.2.4 // indirect
 	github.com/zeebo/xxh3 v1.1.0 // indirect
 	github.com/zhangyunhao116/fastrand v0.5.0 // indirect
-	github.com/zhangyunhao116/skipmap v0.10.1 // indirect
 	github.com/zhangyunhao116/skipset v0.13.0 // indirect
 	go.uber.org/atomic v1.11.0 // indirect
 	go.uber.org/multierr v1.11.0 // indirect
